@@ -5,6 +5,7 @@ import (
 	"go/ast"
 	"go/token"
 	"go/types"
+	"reflect"
 	"sort"
 	"strings"
 )
@@ -339,4 +340,36 @@ func (e *Eng) implicitAddr(x ast.Expr, fn *types.Func) {
 		e.escaped = map[types.Object]bool{}
 	}
 	e.escaped[o] = true
+}
+
+// havocFieldsExceptTag forgets the fields of a struct cell except those whose
+// struct tag says <key>:"-" (which encoding/json and friends never touch).
+func (e *Eng) havocFieldsExceptTag(st *State, v Val, key string) {
+	if v.K != KRef || v.GoT == nil {
+		e.havocPointee(st, v)
+		return
+	}
+	t := derefType(v.GoT)
+	u, ok := t.Underlying().(*types.Struct)
+	if !ok {
+		e.havocPointee(st, v)
+		return
+	}
+	st.tainted = true
+	for i := 0; i < u.NumFields(); i++ {
+		f := u.Field(i)
+		if reflectTagGet(u.Tag(i), key) == "-" || !f.Exported() {
+			continue
+		}
+		for _, cmp := range e.comps(f.Type()) {
+			k := e.fieldBase(f, ownerName(t)) + cmp
+			h := e.heapGet(st, k)
+			el := strings.TrimSuffix(strings.TrimPrefix(e.heapSort(k), "(Array Int "), ")")
+			e.heapSet(st, k, "(store "+h+" "+v.T+" "+e.newSym("fld", el)+")")
+		}
+	}
+}
+
+func reflectTagGet(tag, key string) string {
+	return reflect.StructTag(tag).Get(key)
 }
